@@ -7,6 +7,7 @@ import struct
 import sys
 
 from .. import common, tlc, schemabind as B, schemagen as G
+from .. import schemaext  # noqa: registers the per-group bindings
 
 ONLY = [c for c in os.environ.get("C01_ONLY", "").split(",") if c]
 
